@@ -87,6 +87,17 @@ CHECKS = {
          "flush exactly after every (write_count+1)-th collection, no duplicate line (negative control: <= in the flush test). Graph walks, a write_count x "
          "records-per-collection sweep and random histories run on real AgentCollector / FileCollector objects writing real temporary files; after EVERY "
          "timestep (= every stop point) TLC compares deep copies of all records, the file text and the held records."),
+ "C18": ("Decode", "6 C18", "Decode.tla: the decoder as a program-counter machine over a description (hooks present or not, systems, agent groups of size n); every step logs "
+         "what was called, whether it was handed the decoded model and how many systems/agents the model contained; TLC checks log = documented lifecycle "
+         "for all 13188 descriptions with <= 2 systems and <= 2 groups of 0..2 agents and every hook subset (negative control: agents added after the loop). "
+         "Exhaustive binding: each of those descriptions (plus random larger ones) is written to a JSON file and decoded by the real JsonDecoder with recording "
+         "fixture classes, repeatedly and from two files in one process; TLC compares the recorded log and the final model with ExpectedLog(desc)."),
+ "C07": ("Determinism", "6 C07", "Determinism.tla states C07 as a 2-safety property: two copies with the same seed interleaved with ambient perturbations and another model, "
+         "generator uninterpreted (TLC enumerates all draw functions); own-generator draws keep the trajectories equal, ambient draws (negative control) do not. "
+         "Binding: TLC's graph supplies interleaving schedules; scripted stochastic models (plain/grid/continuous, random picks, shuffles, moves, births and "
+         "deaths, collector) run as two interleaved copies with reseeding/consumption of random and numpy.random and other models stepping in between, in fresh "
+         "interpreters with PYTHONHASHSEED 0/1/12345/random and inside batch_run workers; the trace specification takes the first run of a (configuration, seed) "
+         "as the definition of its trajectory and requires every other run to equal it step by step."),
 }
 
 TECH = "TLA+ specification model-checked with TLC; implementation traces (spec->code graph walks and code->spec drivers) validated by TLC against the trace specification"
@@ -107,8 +118,7 @@ def main():
             "technique": TECH,
         })
     all_ids = [f"C{k:02d}" for k in range(1, 21)]
-    na = [{"property_id": p, "reason": "check not built yet in this round (specification module planned in DESIGN.md 5/6); not claimed until it runs"}
-          for p in all_ids if p not in CHECKS]
+    na = [{"property_id": p, "reason": "no check registered"} for p in all_ids if p not in CHECKS]
     doc = {
         "version": 1,
         "setup_cmd": "./setup.sh",
